@@ -37,12 +37,21 @@ def one(sid):
             a = subprocess.run(['git', '-C', wt, 'apply', '-3', os.path.join(d, 'patch.diff')], stderr=subprocess.DEVNULL)
         rec['applies'] = a.returncode == 0
         if rec['applies']:
+            demo = os.path.join(d, 'demo.py')
+            if os.path.isfile(demo):      # does the change still break anything on today's tree? (a later fix: commit may have removed what it relied on)
+                try:
+                    r = subprocess.run(['/venv/bin/python', demo], cwd=wt, env=dict(os.environ, PYTHONPATH=wt), stdout=subprocess.DEVNULL,
+                                       stderr=subprocess.DEVNULL, timeout=900)
+                    rec['demo_changed_rc'] = r.returncode
+                except subprocess.TimeoutExpired:
+                    rec['demo_changed_rc'] = 'timeout'
             t = time.time()
             p = subprocess.run([os.path.join(VERIF, 'check'), prop, '--tier', 'quick'], env=dict(os.environ, XLCALC_REPO=wt, VERIF_OUT=out),
                                stdout=subprocess.PIPE, stderr=subprocess.STDOUT, text=True)
             viol = [ln for ln in p.stdout.splitlines() if ln.startswith('VIOLATION')]
             rec.update(check_rc=p.returncode, wall_s=round(time.time() - t), violation_groups=len(viol),
-                       verdict='CAUGHT' if p.returncode == 1 and viol else ('MACHINERY' if p.returncode == 2 else 'MISSED'))
+                       verdict='CAUGHT' if p.returncode == 1 and viol else ('MACHINERY' if p.returncode == 2 else
+                                                                                  'NEUTRALISED' if rec.get('demo_changed_rc') == 0 else 'MISSED'))
     finally:
         subprocess.run(['git', '-C', '/repo', 'worktree', 'remove', '--force', wt], stdout=subprocess.DEVNULL, stderr=subprocess.DEVNULL)
         shutil.rmtree(out, ignore_errors=True)
